@@ -32,6 +32,9 @@ LimitTrees ==
            \cup {Node(o, <<Wide(k, n)>>) : o \in {"list", "generator"}, k \in {"list", "tuple", "generator", "set"}}
            \cup {Node("dict", <<<<Scalar("a"), Wide(k, n)>>>>) : k \in {"list", "mapobj", "frozenset"}}
            \cup {Node("list", <<Node("list", <<Wide("generator", n)>>)>>)}
+           \* a collection used as a dict key is finalised (and limited) like any other
+           \cup {Node(m, <<<<Wide(k, n), Scalar("1")>>>>) : m \in {"dict", "frozendict"}, k \in {"tuple", "frozenset"}}
+           \cup {Node("list", <<Node("dict", <<<<Wide("tuple", n), Wide("list", 1)>>>>)>>)}
            : n \in 0..5}
 
 VARIABLES tree, t2l, s2l, n, out, rt
@@ -41,7 +44,7 @@ Init ==
     THEN /\ tree \in Trees /\ t2l \in BOOLEAN /\ s2l \in BOOLEAN /\ n = 0 - 1
          /\ out = Finalize(tree, t2l, s2l)
          /\ rt = Finalize(ConvertIn(tree), t2l, s2l)      \* `$` on a host document: converted in, then finalised
-    ELSE /\ tree \in LimitTrees /\ t2l = TRUE /\ s2l \in BOOLEAN /\ n \in Ns
+    ELSE /\ tree \in LimitTrees /\ t2l \in BOOLEAN /\ s2l \in BOOLEAN /\ n \in Ns
          /\ out = IF TooLarge(tree, n) THEN No("too-large") ELSE Finalize(tree, t2l, s2l)
          /\ rt = out
 Next == UNCHANGED vars
